@@ -850,8 +850,8 @@ func c09LoopGoroutine(s *StatsCtx) (found bool, frame string) {
 	return true, strings.TrimSpace(dump[j+1 : i+k])
 }
 
-// c09ResetLoopHistory: the real Start() loop is alive and every one of its
-// ticks is a rollover (the hour moves every 150 ms) while POST
+// c09ResetLoopHistory: the real Start() loop is alive and its ticks are
+// rollovers (the hour moves every 0.5 ms, so the loop rotates continuously) while POST
 // /control/stats_reset is hammered and readers keep bbolt write transactions
 // open.  Nothing is asserted during that phase (reset concurrent with traffic
 // is not specified).  Then, at quiescence: reset, n1 updates, advance the
@@ -959,10 +959,13 @@ func c09ResetLoopHistory(rep *verifkit.Report, rng *rand.Rand, dir string, idx i
 		}(g)
 	}
 	wg.Add(1)
-	go func() { // every tick of the real loop sees a new hour
+	go func() {
+		// The clock moves about as often as a reset completes: each reset
+		// re-creates the current unit for the hour it sees, so only a clock
+		// that has moved since makes the loop's tick a real rollover.
 		defer wg.Done()
 		for !stop.Load() {
-			time.Sleep(150 * time.Millisecond)
+			time.Sleep(500 * time.Microsecond)
 			hour.Add(1)
 		}
 	}()
@@ -989,7 +992,7 @@ func c09ResetLoopHistory(rep *verifkit.Report, rng *rand.Rand, dir string, idx i
 	for i := int64(0); i < resetFailed.Load(); i++ {
 		rep.Unspec("reset-failed-during-traffic")
 	}
-	steps = append(steps, fmt.Sprintf("2.3 s of traffic: %d resets, %d+%d reads (ok+failed), %d updates, hour advanced every 150 ms to %d",
+	steps = append(steps, fmt.Sprintf("2.3 s of traffic: %d resets, %d+%d reads (ok+failed), %d updates, hour advanced every 0.5 ms to %d",
 		resets.Load(), readsOK.Load(), readsFailed.Load(), updates.Load(), hour.Load()))
 	crashed := false
 	panics.Range(func(k, v any) bool {
